@@ -207,6 +207,11 @@ def _iter_child_nodes_in_order_internal_1(node):
     elif isinstance(node, ast.FormattedValue):
         assert node._fields == ('value', 'conversion', 'format_spec')
         yield node.value,
+    elif isinstance(node, ast.JoinedStr):
+        # For the "=" specifier (f"{x=}"), the compiler emits the text "x=" as
+        # a Constant placed before the FormattedValue but positioned inside
+        # its braces, i.e. after it.  Visit the values in source order.
+        yield sorted(node.values, key=lambda n: (n.lineno, n.col_offset))
     elif isinstance(node, MatchAs):
         yield node.pattern
         yield node.name,
